@@ -1,5 +1,65 @@
-(* C13 -- what a compiled grammar can generate, the validator accepts.  ONLY statements closed by `exact`. *)
-From OV Require Import Base.Strs Gbnf.Syntax Gbnf.Derive Gbnf.Read.
+(* C13 -- what a compiled grammar can generate, the validator accepts.  ONLY statements closed by `exact`
+   (+ Definitions of the full / open statements). *)
+From OV Require Import Base.Strs Lex.Lexer Gbnf.Syntax Gbnf.Compiler Gbnf.Safe Gbnf.Derive Gbnf.Read Gbnf.Agree.
 
-Theorem C13_placeholder_conflict : conflict [KReq; KOpt] = true.
-Proof. exact eq_refl. Qed.
+(* the structured fragments are what the recogniser extracts from the compiled rule text *)
+Theorem C13_frag_boolean_is_compiled : field_value_alts (field_line (kfield (CType s_BOOLEAN))) = Some frag_bool.
+Proof. exact frag_bool_of_text. Qed.
+Theorem C13_frag_number_is_compiled : field_value_alts (field_line (kfield (CType s_NUMBER))) = Some frag_number.
+Proof. exact frag_number_of_text. Qed.
+Theorem C13_frag_date_is_compiled : field_value_alts (field_line (kfield CDate)) = Some frag_date.
+Proof. exact frag_date_of_text. Qed.
+
+(* CONST: for ALL constants and chains -- the only derivation is the constant's text, so the decidable check
+   `accepted ch txt` (reader model + chain model on that one text) decides every derivation *)
+Theorem C13_agree_const : forall cls ch txt, accepted cls ch txt = true ->
+  forall w, derives (frag_const txt) w -> accepted cls ch w = true.
+Proof. exact agree_const. Qed.
+
+(* ENUM: for ALL member lists -- the derivations are exactly the members *)
+Theorem C13_agree_enum : forall cls ch vals, forallb (accepted cls ch) vals = true ->
+  forall w, derives (frag_enum vals) w -> accepted cls ch w = true.
+Proof. exact agree_enum. Qed.
+
+(* TYPE[BOOLEAN]: every derivation is read as a boolean and accepted, with or without REQ / OPT *)
+Theorem C13_agree_boolean : forall cls w, derives frag_bool w ->
+  (exists b, read_value cls w = RBool b) /\ forallb (fun ch => accepted cls ch w) bool_chains = true.
+Proof. exact agree_boolean. Qed.
+
+(* full statements for CONST / ENUM (no hypothesis) are false of the faithful model *)
+Definition C13_agree_const_full : Prop :=
+  forall cls c w, derives (frag_const (match c with CVBool true => s_True | CVBool false => s_False | CVNone => s_None
+                                                  | CVStr s => s | CVInt t => t | CVFloat r => r end)) w ->
+                  accepted cls [KConst c] w = true.
+Theorem C13_const_true_refuted : forall cls, accepts [KConst (CVBool true)] (read_value cls s_True) = Some false.
+Proof. exact const_true_rejected. Qed.
+Theorem C13_enum_true_refuted : forall cls, accepts [KEnum [s_true'; s_false']] (read_value cls s_true') = Some false.
+Proof. exact enum_true_rejected. Qed.
+
+(* NUMBER and the universal DATE / ISO8601 refutations: OPEN in this development (the symbolic evaluation of the
+   shared lexer model on digit strings was not finished).  They are CHECKED by harness/props/c13.py on every
+   enumerated / sampled derivation (model prediction = implementation, every run). *)
+Definition int_lexeme (w : str) : bool := negb (existsb (fun c => N.eqb c c_dot) w).
+Definition C13_agree_number_OPEN : Prop :=
+  forall cls w, derives frag_number w ->
+    (int_lexeme w = true -> (count_digits w <= int_max_digits)%nat -> read_value cls w = RInt w) /\
+    (int_lexeme w = false -> read_value cls w = RFloat w).
+Definition C13_date_refuted_universal_OPEN : Prop :=
+  forall cls w, derives frag_date w -> accepts [KDate] (read_value cls w) = Some false.
+
+(* what IS proved about DATE / ISO8601: the witnesses are derivable, mis-read and rejected *)
+Theorem C13_date_witness_derivable : derives frag_date w_date.
+Proof. exact date_witness_derivable. Qed.
+Theorem C13_date_refuted : forall cls,
+  read_value cls w_date = RStr [50;48;50;52;32;45;48;49;32;45;49;53] /\ accepts [KDate] (read_value cls w_date) = Some false.
+Proof. exact date_witness_rejected. Qed.
+Theorem C13_iso8601_refuted : forall cls,
+  read_value cls w_iso = RStr [50;48;50;52;32;45;48;49;32;45;49;53;32;84;49;48] /\ accepts [KIso] (read_value cls w_iso) = Some false.
+Proof. exact iso_witness_rejected. Qed.
+
+(* non-vacuity of the CONST / ENUM hypotheses *)
+Theorem C13_agree_const_nonvacuous : forall cls, accepted cls [KReq; KConst (CVStr [68;79;78;69])] [68;79;78;69] = true.
+Proof. exact agree_const_example. Qed.
+Theorem C13_agree_enum_nonvacuous : forall cls,
+  forallb (accepted cls [KReq; KEnum [[65;67;84]; [65;67;84;73;86;69]; [97;32;98]]]) [[65;67;84]; [65;67;84;73;86;69]; [97;32;98]] = true.
+Proof. exact agree_enum_example. Qed.
